@@ -22,13 +22,14 @@ pub enum Error {
     Priors(String),
     #[error("algorithm not converged {0}")]
     NotConverged(String),
-    // ShapeError doesn't implement serde traits, and deriving them remotely on a complex error
-    // type isn't really feasible, so we skip this variant.
-    #[cfg_attr(feature = "serde", serde(skip))]
-    #[error("invalid ndarray shape {0}")]
-    NdShape(#[from] ShapeError),
     #[error("not enough samples")]
     NotEnoughSamples,
     #[error("The number of samples do not match: {0} - {1}")]
     MismatchedShapes(usize, usize),
+    // ShapeError doesn't implement serde traits, and deriving them remotely on a complex error
+    // type isn't really feasible, so we skip this variant. It must stay the LAST variant: serde
+    // numbers the variants after a skipped one differently when writing and when reading.
+    #[cfg_attr(feature = "serde", serde(skip))]
+    #[error("invalid ndarray shape {0}")]
+    NdShape(#[from] ShapeError),
 }
